@@ -48,7 +48,11 @@ LEVEL_TEXT = ("Machine-checked (Props/C20.lean, 73 theorems, axioms propext/Clas
               "cell constructed exactly once before use and destroyed exactly once; the same for deque, list and map "
               "elements (ElemTrace.lean). XalanList at pointer level (PList.lean, heap of value/prev/next nodes): the "
               "writes of constructNode / freeNode keep the doubly linked ring and the LIFO free chain and are the node-"
-              "sequence edits of XList.lean. const XalanDOMChar* overloads and the compare / equals / ASCII-case-insensitive "
+              "sequence edits of XList.lean; constructNode with an empty free chain (allocate(1)) and on a list without head "
+              "node, and the freeNode loop of clear() for any length, are proved on the heap; plist_history: from the fresh "
+              "object in any heap every push_back/push_front/pop_front/pop_back/clear/insert(it)/erase(it) sequence inside "
+              "the std::list contract runs through the executable pointer code (PL.pstep, the function the driver executes "
+              "against the C++) without an invalid dereference and reads back exactly the specified List. const XalanDOMChar* overloads and the compare / equals / ASCII-case-insensitive "
               "family against lexicographic order and equality. Bucket capacities, rehash points (41st/88th/188th insertion "
               "-> 64/139/299 buckets), 1.6x growth and deque block capacities as theorems. The models "
               "are tied to the working tree by replaying generated request logs on the real code (header templates and the "
